@@ -86,6 +86,7 @@ type shardRun struct {
 	crashes  []Violation
 	hung     bool
 	complete bool
+	notes    []string
 }
 
 func verifDir() string {
@@ -267,6 +268,9 @@ func crashKey(stderr string) (key, what string) {
 			}
 		}
 		return "fatal@" + site, line
+	case strings.Contains(stderr, "fatal error: verif memory guard"):
+		i := strings.Index(stderr, "fatal error: verif memory guard")
+		return "memory-guard", strings.SplitN(stderr[i:], "\n", 2)[0]
 	case strings.Contains(stderr, "fatal error: all goroutines are asleep"):
 		return "deadlock", "fatal error: all goroutines are asleep - deadlock!"
 	case strings.Contains(stderr, "stack overflow") || strings.Contains(stderr, "goroutine stack exceeds"):
@@ -348,6 +352,7 @@ func RunCheck(propID, tier string) int {
 			mergeResult(m, r)
 		}
 		m.Violations = append(m.Violations, sr.crashes...)
+		m.Notes = append(m.Notes, sr.notes...)
 		if !sr.complete {
 			if sr.hung {
 				m.Inconclusive = append(m.Inconclusive, fmt.Sprintf("shard %d: worker watchdog fired (%ds)", sr.shard, timeout))
@@ -403,6 +408,7 @@ func mergeResult(m *Merged, r Result) {
 func runShard(p *Property, bin, tier string, seed int64, sr *shardRun, nsh int, work string, timeout time.Duration, only string) {
 	skipTo := 0
 	const maxAttempts = 40
+	silentDeaths := map[int]int{} // ordinal of the open case (-1: outside any case) -> deaths without any Go runtime message
 	for sr.attempts < maxAttempts {
 		att := sr.attempts
 		sr.attempts++
@@ -432,8 +438,9 @@ func runShard(p *Property, bin, tier string, seed int64, sr *shardRun, nsh int, 
 		done := make(chan error, 1)
 		go func() { done <- cmd.Wait() }()
 		hung := false
+		var waitErr error
 		select {
-		case <-done:
+		case waitErr = <-done:
 		case <-time.After(timeout):
 			hung = true
 			cmd.Process.Signal(syscall.SIGQUIT)
@@ -471,6 +478,28 @@ func runShard(p *Property, bin, tier string, seed int64, sr *shardRun, nsh int, 
 		stderr := headFile(base+".stderr", 200000)
 		ord, id, input, ok := lastOpenCase(logPath)
 		key, what := crashKey(stderr)
+		if key == "worker-died" && only == "" {
+			// No Go runtime failure was printed: a panic or fatal error of the code under test always prints one, so
+			// this death came from outside (a signal, the OOM killer). It says nothing about the property unless it
+			// repeats at the same case: rerun from that case, and only the third silent death there is reported.
+			at := -1
+			if ok {
+				at = ord
+			}
+			silentDeaths[at]++
+			state := "unknown"
+			if cmd.ProcessState != nil {
+				state = cmd.ProcessState.String()
+			}
+			sr.notes = append(sr.notes, fmt.Sprintf("shard %d attempt %d: worker ended without a Go runtime message (%s, %v) at case ordinal %d; rerun", sr.shard, att, state, waitErr, at))
+			if silentDeaths[at] < 3 {
+				if ok {
+					skipTo = ord
+				}
+				continue
+			}
+			what = fmt.Sprintf("worker process died three times without a Go runtime message (%s)", state)
+		}
 		if !ok {
 			sr.crashes = append(sr.crashes, Violation{Key: key + "/outside-case", Shard: sr.shard, What: "worker died outside any case: " + what, Detail: tailFile(base+".stderr", 8000)})
 			return
